@@ -159,7 +159,9 @@ def field_of(cfg):
         return fields.NUMERIC(int, cfg["bits"], signed=cfg["signed"], shift_step=cfg["step"],
                               sortable=cfg["sortable"])
     if k == "float":
-        return fields.NUMERIC(float, signed=cfg["signed"], shift_step=cfg["step"], sortable=cfg["sortable"])
+        # `bits` is ignored for floats (always 64): passed anyway, it must stay without effect
+        return fields.NUMERIC(float, cfg.get("ctor_bits", 32), signed=cfg["signed"], shift_step=cfg["step"],
+                              sortable=cfg["sortable"])
     if k == "decimal":
         return fields.NUMERIC(Decimal, cfg["bits"], signed=cfg["signed"], shift_step=cfg["step"],
                               decimal_places=cfg["dc"], sortable=cfg["sortable"])
@@ -255,6 +257,9 @@ def gen_datetimes(rng, k):
 def gen_config(rng):
     r = rng.random()
     step = rng.choice([0, 1, 2, 3, 4, 4, 4, 5, 6, 7, 8, 8])
+    if rng.random() < 0.12:
+        # steps beyond the documented 1..8: the constructor accepts any, a step >= bits means one tier
+        step = rng.choice([9, 12, 16, 31, 32, 33, 63, 64, 100])
     sortable = rng.random() < 0.5
     if r < 0.55:
         return {"kind": "int", "bits": rng.choice([8, 8, 16, 32, 64]), "signed": rng.random() < 0.5,
@@ -262,7 +267,7 @@ def gen_config(rng):
     if r < 0.75:
         # sortable float columns are a separate, recorded defect (probed on its own)
         return {"kind": "float", "bits": 64, "signed": rng.random() < 0.6, "step": step, "sortable": False,
-                "dc": 0}
+                "dc": 0, "ctor_bits": rng.choice([8, 16, 32, 64])}
     if r < 0.88:
         return {"kind": "decimal", "bits": rng.choice([8, 16, 32, 64]), "signed": rng.random() < 0.6,
                 "step": step, "sortable": sortable, "dc": rng.choice([1, 2, 3, 5])}
